@@ -2,6 +2,7 @@ import Driver.Proto
 import TonicModel.Model.Status
 import TonicModel.Spec.Status
 import TonicModel.Basic.HMap
+import TonicModel.Model.Framing
 namespace DriverC04
 open Proto Status
 
@@ -66,6 +67,100 @@ def readVerdict (h : HMap) (obs : List String) : List (String × Bool) :=
     | _, _ => [("observed-parses", false)]
   | _ => [("observed-parses", false)]
 
+
+def renderT : Option HMap → List String
+  | none => ["none"]
+  | some t => "some" :: HMap.render t
+
+/-- spec verdict for how a response stream ended (`obs` = `end …` / `err …` / `panic`), given the
+HTTP status and the first trailers frame `merged` (the one that ends the stream) -/
+def endVerdict (http : Nat) (merged : Option HMap) (obs : List String) : List (String × Bool) :=
+  let reading := merged.bind Spec.Status.read
+  match obs with
+  | ["panic"] => [("never-panics", false)]
+  | "end" :: t =>
+    [("clean-end-only-on-ok-or-http-200", match reading with
+        | some r => r.code == Spec.Status.OK && r.message.isSome && r.details.isSome
+        | none => http == 200),
+     ("trailers-kept", join t == join (renderT merged))]
+  | "err" :: o =>
+    match parseObsSt o with
+    | some (o, ["t:none"]) =>
+      match merged, reading with
+      | some t, some _ => readVerdict t ("st" :: renderSt
+          { code := Code.ofNum o.code, message := o.message, details := o.details, metadata := o.metadata })
+          ++ [("error-has-nonzero-code", o.code != Spec.Status.OK)]
+      | _, _ => [("http-status-table", http != 200 && o.code == Spec.Status.httpToCode http)]
+    | _ => [("observed-parses", false)]
+  | _ => [("observed-parses", false)]
+
+/-! ### `inferb`: a response body with DATA -/
+
+inductive BEv
+  | data (b : Bytes)
+  | pending
+  | trailers (t : HMap)
+
+def parseBEvs : Nat → List String → Option (List BEv)
+  | 0, [] => some []
+  | 0, _ => none
+  | n + 1, "P" :: rest => (parseBEvs n rest).map (BEv.pending :: ·)
+  | n + 1, "D" :: d :: rest =>
+    match unhex d, parseBEvs n rest with
+    | some b, some r => some (BEv.data b :: r)
+    | _, _ => none
+  | n + 1, "T" :: rest =>
+    match HMap.parse rest with
+    | some (h, r) => (parseBEvs n r).map (BEv.trailers h :: ·)
+    | none => none
+  | _, _ => none
+
+/-- the harness' `RawDecoder` accepts every payload; no encoding is negotiated -/
+def rawCodec : Framing.Codec Bytes :=
+  { ser := id, de := some, deErr := 13, cz := fun _ b => b, dz := fun _ _ => none }
+
+/-- the `grpc-status` of a trailers block as the framing model sees it -/
+def trOf (t : HMap) : Framing.Tr :=
+  match fromHeaderMap .fixed t with
+  | some (.status st) => some st.code.num
+  | _ => none
+
+def toFramingEv : BEv → Framing.BodyEv
+  | .data b => .data b
+  | .pending => .pending
+  | .trailers t => .trailers (trOf t)
+
+def firstTrailers : List BEv → Option HMap
+  | [] => none
+  | .trailers t :: _ => some t
+  | _ :: r => firstTrailers r
+
+/-- render the framing model's run the way the harness reports `message()` calls: messages, then
+the first terminal item -/
+def renderRun (http : Nat) (first : Option HMap) : List (Framing.Item Bytes) → List String
+  | [] => ["no-end"]
+  | .pending :: r => renderRun http first r
+  | .msg m :: r => "m" :: hex m :: renderRun http first r
+  | .none :: _ => "end" :: renderT first
+  | .err e :: _ =>
+    if http == 200 then ["errc", toString e.code, "t:none"]
+    else
+      let st : St := match e.cls with
+        | .user => match first.bind (fromHeaderMap .fixed) with
+          | some (.status st) => st
+          | _ => { code := Code.ofNum e.code, message := [], details := [], metadata := [] }
+        | _ => { code := Code.ofNum e.code, message := inferMessage http, details := [], metadata := [] }
+      ("err" :: renderSt st) ++ ["t:none"]
+
+def dataLen : List BEv → Nat
+  | [] => 0
+  | .data b :: r => b.length / 5 + 1 + dataLen r
+  | _ :: r => dataLen r
+
+def obsMsgsEnd : List String → Nat × List String
+  | "m" :: _ :: r => let (n, e) := obsMsgsEnd r; (n + 1, e)
+  | e => (0, e)
+
 def handle (case obs : List String) : String × String :=
   match case with
   | ["code", hv] =>
@@ -108,7 +203,12 @@ def handle (case obs : List String) : String × String :=
             | some (h, []) =>
               [("values-legal", h.all (fun e => Spec.Status.legalHeaderValue e.2)),
                ("message-percent-encoded", st.message.isEmpty ||
-                  (HMap.getAll Spec.Status.messageName h).all Spec.Status.percentEncodedWellFormed)]
+                  (HMap.getAll Spec.Status.messageName h).all Spec.Status.percentEncodedWellFormed),
+               ("code-written", HMap.getAll Spec.Status.statusName h == [decimal st.code.num]),
+               ("whole-message-written", st.message.isEmpty ||
+                  (HMap.getAll Spec.Status.messageName h).map Pct.decode == [st.message]),
+               ("whole-details-written", st.details.isEmpty ||
+                  (HMap.getAll Spec.Status.detailsName h).map B64.decode == [some st.details])]
             | _ => [("observed-parses", false)]
           | _ => [("status-is-encodable", false)]
         (join model, verdict v)
@@ -131,34 +231,46 @@ def handle (case obs : List String) : String × String :=
       match frames nf rest with
       | none => bad
       | some fs =>
-        let renderT : Option HMap → List String
-          | none => ["none"]
-          | some t => "some" :: HMap.render t
         let model := match streamEnd .fixed fs http with
           | .finished t => "end" :: renderT t
           | .err st => ("err" :: renderSt st) ++ ["t:none"]
           | .panic => ["panic"]
-        let merged := fs.head?
-        let reading := merged.bind Spec.Status.read
-        let v := match obs with
-          | ["panic"] => [("never-panics", false)]
-          | "end" :: t =>
-            [("clean-end-only-on-ok-or-http-200", match reading with
-                | some r => r.code == Spec.Status.OK && r.message.isSome && r.details.isSome
-                | none => http == 200),
-             ("trailers-kept", join t == join (renderT merged))]
-          | "err" :: o =>
-            match parseObsSt o with
-            | some (o, ["t:none"]) =>
-              match merged, reading with
-              | some t, some _ => readVerdict t ("st" :: renderSt
-                  { code := Code.ofNum o.code, message := o.message, details := o.details, metadata := o.metadata })
-                  ++ [("error-has-nonzero-code", o.code != Spec.Status.OK)]
-              | _, _ => [("http-status-table", http != 200 && o.code == Spec.Status.httpToCode http)]
-            | _ => [("observed-parses", false)]
-          | _ => [("observed-parses", false)]
+        let v := endVerdict http fs.head? obs
         (join model, verdict v)
     | _, _ => bad
+  | "inferb" :: hs :: ne :: rest =>
+    match nat? hs, nat? ne with
+    | some http, some ne =>
+      match parseBEvs ne rest with
+      | none => bad
+      | some evs =>
+        let cfg : Framing.DecCfg := { enc := none, maxSize := none, dir := .response http }
+        let first := firstTrailers evs
+        -- the framing model, as many polls as the harness makes `message()` calls at most
+        -- (plus one per `Pending`)
+        let n := 2 * evs.length + dataLen evs + 4
+        let items := Framing.Dec.run rawCodec cfg n Framing.Dec.init (evs.map toFramingEv)
+        let model := renderRun http first items
+        let (nmsgs, ending) := obsMsgsEnd obs
+        let v := if http == 200 then [("never-panics", obs != ["panic"])]
+          else ("non-200-response-yields-no-message", nmsgs == 0) :: endVerdict http first ending
+        (join model, verdict v)
+    | _, _ => bad
+  | ["rst", rs, whenTok] =>
+    match nat? rs with
+    | none => bad
+    | some r =>
+      let c := (codeFromH2 .fixed r).num
+      -- hyper ends a body reset with NO_ERROR without an error (RFC 9113 §8.1: "early response")
+      let model := if whenTok == "pre" then s!"call {c} 1" else if r == 0 then "body end" else s!"body {c} 1"
+      let v := match obs, Spec.Status.h2ToCode r with
+        | [w, a, _], some e =>
+          [("reset-reported-where-it-happened", w == (if whenTok == "pre" then "call" else "body")),
+           ("h2-error-table", a == toString e)]
+        | [w, _, _], none => [("reset-reported-where-it-happened", w == (if whenTok == "pre" then "call" else "body"))]
+        | _, some _ => [("reset-stream-ends-with-an-error", false)]
+        | _, none => [("observed-parses", false)]
+      (model, verdict v)
   | ["h2", rs] =>
     match nat? rs with
     | none => bad
